@@ -120,6 +120,10 @@ def _dataset(case, rng, variant):
     # (the wrapper mirrors the signature of the wrapped fit: GaussianProcessRegressor takes no sample_weight)
     if variant % 3 == 1 and case["kind"] != "NormalGP":
         w = rng.choice([1.0, 5.0, 0.5], size=n)
+    if variant % 9 == 7 and case["kind"] in ("NIC", "NW") and n_lab >= 1:
+        # every labeled sample has weight zero while unlabeled samples keep theirs: fit must reject this
+        w = rng.choice([1.0, 5.0, 0.5], size=n)
+        w[idx] = 0.0
     # query points inside the range of the data (kernel weights do not underflow)
     Xq = np.vstack([X[: min(2, n)], rng.uniform(-2, 4, size=(int(rng.integers(1, 3)), d)).round(2)])
     if variant % 4 == 2:
@@ -165,8 +169,13 @@ def _realise(arg):
         except Exception as ex:  # noqa: BLE001 - the code under test raised
             return False, {"ev": "Raised", "where": where, "exc": type(ex).__name__, "msg": str(ex)[:160]}
 
+    lab_mask = ~np.isnan(np.asarray(y, dtype=float))
+    tr["zeroLabeledWeights"] = bool(w is not None and case["kind"] in ("NIC", "NW") and lab_mask.any()
+                                    and np.all(np.asarray(w)[lab_mask] == 0))
     ok, r = call("fit", lambda: reg.fit(X, y, sample_weight=w) if w is not None else reg.fit(X, y))
     if not ok:
+        if r["exc"] == "ValueError" and "must not be all zero" in r["msg"]:
+            r = {"ev": "FitRejected", "msg": r["msg"]}
         ev.append(r)
         return tr, n_calls
     ev.append({"ev": "Fit"})
